@@ -51,6 +51,35 @@ pub fn run_history(ops: &[Op], inspect_all: bool) -> Result<Model, (usize, Strin
     }
 }
 
+/// the same history with a caller that never fetches the error message between calls: return
+/// values and the pool must be what the draining caller sees
+pub fn run_history_no_drain(ops: &[Op]) -> Result<(), (usize, String)> {
+    let mut model = Model::new();
+    let mut real = Real::new();
+    real.drain = false;
+    let mut failure = None;
+    unsafe {
+        let _ = take_error();
+        for (i, op) in ops.iter().enumerate() {
+            let want = model_step(&mut model, op);
+            if let Err(e) = real.step(op, &want) {
+                failure = Some((i, format!("with an unfetched error message pending: {e}")));
+                break;
+            }
+            if let Err(e) = real.compare(&model) {
+                failure = Some((i, format!("with an unfetched error message pending, after {op:?}: {e}")));
+                break;
+            }
+        }
+        real.cleanup();
+        let _ = take_error();
+    }
+    match failure {
+        Some(f) => Err(f),
+        None => Ok(()),
+    }
+}
+
 pub fn op_class(op: &Op) -> String {
     match op {
         Op::Make(_, c) => {
@@ -230,6 +259,25 @@ pub fn machines(tier: Tier) -> Vec<Machine> {
         a.push(Op::Insert(0, b"self", 0));
         out.push(Machine { name: "dict", setup: vec![Op::Make(0, Ctor::Dict), Op::Make(1, Ctor::Number), Op::Make(2, Ctor::Str(b"s"))], alphabet: a, depth: tier.pick(3, 4) });
     }
+    // datetime: constructors from date + time handles and the getters, between calls that fail
+    {
+        let a = vec![
+            Op::GetAt(0, 0),
+            Op::GetKey(1, b"a"),
+            Op::Make(2, Ctor::TzDt(0, 1, b"New_York")),
+            Op::Make(2, Ctor::TzDt(0, 1, b"Nowhere")),
+            Op::Make(2, Ctor::TzDt(1, 0, b"UTC")),
+            Op::Make(2, Ctor::UtcDt(0, 1)),
+            Op::Make(2, Ctor::Date(2021, 2, 30)),
+            Op::Make(2, Ctor::NumberUnit(b"nope")),
+            Op::Destroy(2),
+            Op::DtDate(2, true, 0),
+            Op::DtDate(2, false, 2),
+            Op::DtTime(2, false, 1),
+            Op::DtTime(0, true, 1),
+        ];
+        out.push(Machine { name: "datetime", setup: vec![Op::Make(0, Ctor::Date(2021, 11, 7)), Op::Make(1, Ctor::Time(5, 30, 15))], alphabet: a, depth: tier.pick(4, 5) });
+    }
     // grid: four sparse rows over three columns; rows into a fresh handle, a dict handle and the grid itself; filters
     {
         let mut a = vec![];
@@ -317,6 +365,20 @@ pub fn exotic_ctors() -> Vec<Ctor> {
     ]
 }
 
+/// whether some call after the set-up failed (its error message is still unfetched for a caller
+/// that does not drain)
+fn pending_of(hist: &[Op], setup: &[Op]) -> bool {
+    let mut m = Model::new();
+    let mut pending = false;
+    for (i, op) in hist.iter().enumerate() {
+        let r = model_step(&mut m, op).ret;
+        if i >= setup.len() && r == Ret::Fail {
+            pending = true;
+        }
+    }
+    pending
+}
+
 /// the histories of all machines (model-only search over canonical states) and of the exotic values
 pub fn machine_histories(tier: Tier) -> Vec<(String, Vec<Op>)> {
     let mut out: Vec<(String, Vec<Op>)> = vec![];
@@ -353,8 +415,11 @@ pub fn machine_histories(tier: Tier) -> Vec<(String, Vec<Op>)> {
                     h2.push(op.clone());
                     out.push((format!("{}:{}", m.name, out.len()), h2.clone()));
                     let mut m2 = model.clone();
-                    model_step(&mut m2, op);
-                    if d + 1 < m.depth && seen.len() < 60_000 && seen.insert(m2.key()) {
+                    let ret = model_step(&mut m2, op).ret;
+                    // a failed call leaves the pool as it was but leaves an unfetched error message
+                    // behind for the caller that does not drain: that is a state of its own
+                    let pending = hist.len() > m.setup.len() && pending_of(hist, &m.setup) || ret == Ret::Fail;
+                    if d + 1 < m.depth && seen.len() < 60_000 && seen.insert(format!("{}|pending={pending}", m2.key())) {
                         next.push((h2, m2));
                     }
                 }
@@ -379,7 +444,7 @@ pub fn machine_histories(tier: Tier) -> Vec<(String, Vec<Op>)> {
 pub fn run(tier: Tier) -> i32 {
     let mut run = Run::new("C17", tier, "model_checking");
     let depth = tier.pick(4usize, 5);
-    run.rule = format!("model: pool of {SLOTS} value handles + 1 filter handle; ~35 constructors (every kind; valid, invalid and non-UTF-8 arguments; from Zinc / JSON text; from other handles: utc/tz datetime, grid from rows with/without meta) and every list/dict/grid/datetime/filter operation over slot indices, list index {{0,1,7}}, keys {{a,b,invalid UTF-8}}, 5 filter texts. BFS over canonical model states to depth {depth}; every transition = one real extern \"C\" call on a real pool rebuilt by replaying the state's shortest history; after every step: return value = model (documented sentinel on failure), error message retrievable exactly once iff failure, whole pool deep-equal to the model (failure leaves all handles unchanged), borrowed entry pointers dereferenced immediately; after the last step every live handle is inspected with all 18 predicates and 35 getters incl. to_zinc_string / to_json_string against the Rust encoders. Symmetric states merged by constructing into the first free slot; plus three focused machines searched over canonical states — a list (three values pushed, set, removed, read at every index 0..3, the list into itself; depth 5/6), a dict (camelCase, empty, non-ASCII, blank-containing, 300-byte and invalid keys, overwriting, the dict into itself; depth 3/4), a four-row sparse grid (rows into a fresh handle, a dict handle and the grid itself, two filters, first/all matches into every handle; depth 3/4) — and 51 exotic values (interior NUL in every string position, 210 kB and non-ASCII strings, extreme numbers, dates, times, coordinates, multi-alias units) alone, in a list and in a dict, every live handle inspected with all getters after every step; plus one sweep of every string argument of every function with bytes that are not UTF-8 (sentinel, message, arguments unchanged)");
+    run.rule = format!("model: pool of {SLOTS} value handles + 1 filter handle; ~35 constructors (every kind; valid, invalid and non-UTF-8 arguments; from Zinc / JSON text; from other handles: utc/tz datetime, grid from rows with/without meta) and every list/dict/grid/datetime/filter operation over slot indices, list index {{0,1,7}}, keys {{a,b,invalid UTF-8}}, 5 filter texts. BFS over canonical model states to depth {depth}; every transition = one real extern \"C\" call on a real pool rebuilt by replaying the state's shortest history; after every step: return value = model (documented sentinel on failure), error message retrievable exactly once iff failure, whole pool deep-equal to the model (failure leaves all handles unchanged), borrowed entry pointers dereferenced immediately; after the last step every live handle is inspected with all 18 predicates and 35 getters incl. to_zinc_string / to_json_string against the Rust encoders. Symmetric states merged by constructing into the first free slot; plus three focused machines searched over canonical states — a list (three values pushed, set, removed, read at every index 0..3, the list into itself; depth 5/6), a dict (camelCase, empty, non-ASCII, blank-containing, 300-byte and invalid keys, overwriting, the dict into itself; depth 3/4), a date + time pair (utc / tz constructors with good and bad zones between failing calls, date / time getters into every handle; depth 4/5), a four-row sparse grid (rows into a fresh handle, a dict handle and the grid itself, two filters, first/all matches into every handle; depth 3/4) — and 51 exotic values (interior NUL in every string position, 210 kB and non-ASCII strings, extreme numbers, dates, times, coordinates, multi-alias units) alone, in a list and in a dict, every live handle inspected with all getters after every step; all machine histories and every history of <= 3 calls of the general alphabet once more with a caller that never fetches the error message between calls (same return values, same pool); borrowed entry pointers re-read after every read-only call on their container, every string getter called twice with both results destroyed; plus one sweep of every string argument of every function with bytes that are not UTF-8 (sentinel, message, arguments unchanged)");
     run.assume("the model is written from the header documentation and the Rust API (Appendix C); equal model pools have equal futures (the API has no other state than the handles and the thread-local last error)");
     crate::engine::quiet_panics();
     let (search, l) = bfs(depth, tier.pick(1_500_000, 6_000_000), &visit);
@@ -403,10 +468,38 @@ pub fn run(tier: Tier) -> i32 {
             Ok(Err((k, e))) => local.fail(&format!("capi:{}:{fam}", op_class(&ops[k])), json!({"machine": name, "ops": ops_json(ops)}), e),
             Err(p) => local.fail(&format!("panic:{}:{fam}", op_class(ops.last().unwrap())), json!({"machine": name, "ops": ops_json(ops)}), p),
         }
+        match guarded(|| run_history_no_drain(ops)) {
+            Ok(Ok(())) => {}
+            Ok(Err((k, e))) => local.fail(&format!("capi:{}:{fam}:pending-error", op_class(&ops[k])), json!({"machine": name, "ops": ops_json(ops), "no_drain": true}), e),
+            Err(p) => local.fail(&format!("panic:{}:{fam}:pending-error", op_class(ops.last().unwrap())), json!({"machine": name, "ops": ops_json(ops), "no_drain": true}), p),
+        }
     });
     run.absorb(l);
-    for fam in ["list", "dict", "grid", "exotic"] {
+    // every history of <= 3 calls of the general alphabet, once more without fetching the error
+    // message between calls
+    let (short, _) = transition_paths_opt(3, 3_000_000, true);
+    run.note("no_drain_paths", json!(short.len()));
+    let l = par_for(short.len(), |i, local| {
+        local.eval();
+        local.transitions += 1;
+        local.count("no-drain-histories");
+        let ops = path_to_ops(&short[i]).expect("path");
+        match guarded(|| run_history_no_drain(&ops)) {
+            Ok(Ok(())) => {}
+            Ok(Err((k, e))) => local.fail(&format!("capi:{}:pending-error", op_class(&ops[k])), json!({"path": short[i], "ops": ops_json(&ops), "no_drain": true}), e),
+            Err(p) => local.fail(&format!("panic:{}:pending-error", op_class(ops.last().unwrap())), json!({"path": short[i], "ops": ops_json(&ops), "no_drain": true}), p),
+        }
+    });
+    run.absorb(l);
+    for fam in ["list", "dict", "grid", "datetime", "exotic"] {
         run.require(run.counter(&format!("machine:{fam}")) > 40, &format!("machine {fam} too small"));
+    }
+    // borrowed pointers across read-only calls; returned strings are fresh allocations
+    run.stats.evals += 1;
+    match guarded(|| unsafe { crate::model::capi::borrow_sweep() }) {
+        Ok(Ok(n)) => run.stats.count_n("borrow-sweep-calls", n),
+        Ok(Err(e)) => run.stats.fail("borrowed-pointer-or-string-protocol", json!({"borrow_sweep": true}), e),
+        Err(p) => run.stats.fail("borrowed-pointer-or-string-protocol:panic", json!({"borrow_sweep": true}), p),
     }
     // every string argument of every function, not UTF-8 (state independent)
     run.stats.evals += 1;
@@ -438,10 +531,29 @@ pub fn run(tier: Tier) -> i32 {
 }
 
 pub fn replay(case: &J) -> Verdict {
+    if case["no_drain"] == true && case.get("path").is_some() {
+        let path: Vec<usize> = case["path"].as_array().map(|a| a.iter().map(|x| x.as_u64().unwrap() as usize).collect()).unwrap_or_default();
+        let ops = match path_to_ops(&path) {
+            Some(o) => o,
+            None => return Err(("replay-path-invalid".into(), "path".into())),
+        };
+        return match guarded(|| run_history_no_drain(&ops)) {
+            Ok(Ok(())) => Ok(()),
+            Ok(Err((k, e))) => Err((format!("capi:{}:pending-error", op_class(&ops[k])), e)),
+            Err(p) => Err((format!("panic:{}:pending-error", op_class(ops.last().unwrap())), p)),
+        };
+    }
     if let Some(name) = case["machine"].as_str() {
         for tier in [Tier::Quick, Tier::Thorough] {
             if let Some((_, ops)) = machine_histories(tier).into_iter().find(|(n, ops)| n == name && ops_json(ops) == case["ops"]) {
                 let fam = name.split(':').next().unwrap_or("").to_string();
+                if case["no_drain"] == true {
+                    return match guarded(|| run_history_no_drain(&ops)) {
+                        Ok(Ok(())) => Ok(()),
+                        Ok(Err((k, e))) => Err((format!("capi:{}:{fam}:pending-error", op_class(&ops[k])), e)),
+                        Err(p) => Err((format!("panic:{}:{fam}:pending-error", op_class(ops.last().unwrap())), p)),
+                    };
+                }
                 return match guarded(|| run_history(&ops, true)) {
                     Ok(Ok(_)) => Ok(()),
                     Ok(Err((k, e))) => Err((format!("capi:{}:{fam}", op_class(&ops[k])), e)),
@@ -450,6 +562,13 @@ pub fn replay(case: &J) -> Verdict {
             }
         }
         return Err(("replay-machine-unknown".into(), name.to_string()));
+    }
+    if case["borrow_sweep"] == true {
+        return match guarded(|| unsafe { crate::model::capi::borrow_sweep() }) {
+            Ok(Ok(_)) => Ok(()),
+            Ok(Err(e)) => Err(("borrowed-pointer-or-string-protocol".into(), e)),
+            Err(p) => Err(("borrowed-pointer-or-string-protocol:panic".into(), p)),
+        };
     }
     if case["bad_string_sweep"] == true {
         return match guarded(|| unsafe { crate::model::capi::bad_string_sweep() }) {
@@ -476,8 +595,16 @@ pub fn replay(case: &J) -> Verdict {
 /// model-only BFS: the index paths of all transitions up to `depth` (deterministic order) and the
 /// shortest path of every state reached with fewer than `depth` steps
 pub fn transition_paths(depth: usize, max_states: usize) -> (Vec<Vec<usize>>, Vec<Vec<usize>>) {
+    transition_paths_opt(depth, max_states, false)
+}
+
+/// `with_pending`: a state also records whether a call has failed since the start (for the caller
+/// that never fetches the error message, "a message is pending" is part of the state)
+pub fn transition_paths_opt(depth: usize, max_states: usize, with_pending: bool) -> (Vec<Vec<usize>>, Vec<Vec<usize>>) {
     let mut seen: std::collections::BTreeSet<String> = std::collections::BTreeSet::new();
     seen.insert(Model::new().key());
+    let mut pend: std::collections::BTreeMap<Vec<usize>, bool> = std::collections::BTreeMap::new();
+    pend.insert(vec![], false);
     let mut frontier: Vec<(Vec<usize>, Model)> = vec![(vec![], Model::new())];
     let mut transitions = vec![];
     let mut state_paths = vec![vec![]];
@@ -489,8 +616,11 @@ pub fn transition_paths(depth: usize, max_states: usize) -> (Vec<Vec<usize>>, Ve
                 p2.push(k);
                 transitions.push(p2.clone());
                 let mut m2 = m.clone();
-                model_step(&mut m2, op);
-                if seen.len() < max_states && seen.insert(m2.key()) && d + 1 < depth {
+                let ret = model_step(&mut m2, op).ret;
+                let pending = with_pending && (pend.get(path).copied().unwrap_or(false) || ret == Ret::Fail);
+                let key = if with_pending { format!("{}|pending={pending}", m2.key()) } else { m2.key() };
+                if seen.len() < max_states && seen.insert(key) && d + 1 < depth {
+                    pend.insert(p2.clone(), pending);
                     state_paths.push(p2.clone());
                     next.push((p2, m2));
                 }
